@@ -138,6 +138,10 @@ pub fn grammar(max_n: usize) -> Grammar {
         leaves.push(Stmt::Render { name: Expr::var(v), form: RenderForm::Plain, args: vec![] });
     }
     leaves.push(Stmt::Render { name: Expr::s("p_probe"), form: RenderForm::For(Src::Expr(Expr::var("nothing")), "x".into()), args: vec![] });
+    // an explicit argument named like the for-as variable, or like `forloop`: the loop's own bindings win
+    // (the partial gets its item and a truthful forloop)
+    leaves.push(Stmt::Render { name: Expr::s("p_probe"), form: RenderForm::For(Src::Expr(Expr::var("arr")), "x".into()), args: vec![("x".into(), Expr::s("?")), ("y".into(), Expr::s("?"))] });
+    leaves.push(Stmt::Render { name: Expr::s("p_forloop"), form: RenderForm::For(Src::Range(Expr::int(1), Expr::int(2)), "y".into()), args: vec![("forloop".into(), Expr::s("?"))] });
     // names that differ from an existing partial's only by surrounding whitespace name nothing
     leaves.push(Stmt::Include { name: Expr::s(" p_probe"), args: vec![] });
     leaves.push(Stmt::Render { name: Expr::s("p_probe "), form: RenderForm::Plain, args: vec![] });
